@@ -74,6 +74,8 @@ def thin_event(darsia, rng, tid, m1, m2, big=False, force=None):
     try:
         img1, img2 = make_images(darsia, shape, [float(x) for x in hs], np.array(m1, dtype=float).reshape(shape), np.array(m2, dtype=float).reshape(shape))
         idt = rng.choice(["float64", "float64", "uint8", "uint16", "int64", "float32"])     # integer masses in the pixel types images come in
+        if max(max(m1), max(m2)) > 250:
+            idt = rng.choice(["float64", "int64"])
         e["imgdtype"] = idt
         if idt != "float64":
             img1.img = img1.img.astype(idt)
@@ -375,6 +377,15 @@ def run(ck, replay=None):
     for k_ in range(24):
         m1_, m2_ = ([2, 0, 1], [0, 3, 0]) if k_ % 2 == 0 else ([0, 3, 0, 2], [2, 0, 3, 0])
         events.append(thin_event(darsia, rng, f"thinsign:{k_}", m1_, m2_, force=(["subcell", "rt"][(k_ // 6) % 2], ["newton", "bregman"][(k_ // 12) % 2])))
+    # nearly identical distributions: one unit of mass moved along the chain on a large common background (two consecutive
+    # frames of a slow process) - the distance is that of the one unit, not zero
+    for k_ in range(6):
+        bg = [100000, 40000][k_ % 2]
+        n_ = 4 + k_ % 2
+        m1_, m2_ = [bg] * n_, [bg] * n_
+        m1_[0] += 1
+        m2_[-1] += 1
+        events.append(thin_event(darsia, rng, f"thinnear:{k_}", m1_, m2_, force=(["cell", "subcell", "rt"][k_ % 3], ["newton", "bregman"][(k_ // 3) % 2])))
     tick("sign-chains")
     for i in range(3 if quick else 42):    # ~5-15 s each (six solver runs of up to 60 iterations)
         events.append(relations_event(darsia, rng, f"rel:{i}"))
